@@ -171,6 +171,25 @@ def laws():
         xyz = list(C.coord_system.base_scalars())
         return Case([lhs - rhs] + free_of(lhs, [u] + xyz) + free_of(rhs, [u, v] + xyz), assume=[sp.Gt(x1, x0), sp.Gt(y1, y0)])
 
+    # a field whose curl VANISHES ON THE CURVE but not inside it (curl_z = c*(R^2 - x^2 - y^2) on the circle of radius R): the circulation
+    # is the curl flux through the disc, pi*c*R^4/2, not zero -- "zero curl on the trajectory" is no reason to skip the integral
+    @law("circulation_along_curve==circulation_along_surface_boundary/stokes-on-a-circle-where-the-curl-vanishes-on-the-curve-only",
+         [(o, sp_) for o in (1, -1) for sp_ in (1, 2)])
+    def _(s, g):
+        C = CS(CS.System.CARTESIAN)
+        x, y, z = C.coord_system.base_scalars()
+        c = g.sym("c")
+        R = sp.Integer(1) if s[1] == 1 else sp.Integer(2)
+        fld = VectorField(lambda p: [c * (-p.y * R**2 / 2 + p.y**3 / 3), c * (p.x * R**2 / 2 - p.x**3 / 3), 0], C)
+        t, rho, phi = g.var("t"), g.var("rho"), g.var("phi")
+        w = s[0] * s[1]  # orientation and parametrisation speed
+        curve = [R * cos(w * t), R * sin(w * t), 0]
+        lhs = AN.circulation_along_curve(fld, curve, (t, 0, 2 * pi / s[1]))
+        surface = [R * rho * cos(phi), R * rho * sin(phi), 0]
+        rhs = AN.circulation_along_surface_boundary(fld, surface, (rho, 0, 1), (phi, 0, 2 * pi))
+        want = sp.pi * c * R**4 / 2
+        return Case([lhs - s[0] * want, rhs - want] + free_of(lhs, [t, x, y, z]))
+
     # ------------------------------------------------------------------ regions whose inner limits depend on the outer parameter
     @law("stokes-and-green-on-a-disc-given-by-dependent-limits(inner limits depend on the outer parameter)",
          [(m, e) for m, e in M2 if sum(e) <= 2] + [(0, (0, 1, 1)), (1, (1, 0, 1))])
